@@ -1097,6 +1097,11 @@ func runENEXTIDX(c *Ctx, r *Report, reach map[*ssa.Function]bool, scope string, 
 				if k < 1 {
 					continue
 				}
+				// `for i := range s` is lowered to i = phi(-1, i+1) with the increment ahead of the body: that i + 1
+				// is the loop index itself, not a look-ahead
+				if ph, isPhi := base.(*ssa.Phi); isPhi && ph.Comment == "rangeindex" && k == 1 {
+					continue
+				}
 				// a bounded position into storage of known minimum length (loop counter below a constant, fixed-size buffer)
 				if rg := ia.rangeOf(idx, b, 0, map[ssa.Value]bool{}); rg.okHi && rg.okLo && rg.lo >= 0 {
 					if n := ml.boundAt(s, b, 0); n > rg.hi && n < 1<<30 {
@@ -1204,7 +1209,7 @@ var frozenNextIdx = map[string]string{
 	"common.GridSampler_checkAndNudgePoints:[+1]#3":                   "offset runs over the even positions from len(points)-2 down to 0 of a list of coordinate pairs (its only caller on decode paths, DefaultGridSampler, passes 2*n values)",
 	"common.GridSampler_checkAndNudgePoints:[+1]#4":                   "as #3",
 	"common.GridSampler_checkAndNudgePoints:[+1]#5":                   "as #3",
-	"oned.RecordPattern:[+1]#1":                                       "counterPosition is incremented and compared with numCounters = len(counters) (equal: break) before the store (the function is folded whole by S-RUNS under C20)",
+	"oned.RecordPattern:[+1]#0":                                       "counterPosition is incremented and compared with numCounters = len(counters) (equal: break) before the store (the function is folded whole by S-RUNS under C20)",
 	"qrcode/decoder.DecodedBitStreamParser_decodeHanziSegment:[+1]#0": "buffer is made with 2*count bytes; offset advances by 2 per character while count counts down to 0",
 	"qrcode/decoder.DecodedBitStreamParser_decodeKanjiSegment:[+1]#0": "as the Hanzi segment",
 }
